@@ -1,6 +1,6 @@
 (* C04/Run.v — S-expression front end, extracted to OCaml.
    values  (i n) (s c...) (a n...)
-   expr    (l V) (v name) (b op A B) (z A) (d name E)          op 0 = *, 1 = -
+   expr    (l V) (v name) (b op A B) (z A) (r A) (d name E)    op 0 = *, 1 = -; (r A) = +/A
    requests
      (hist ((tid E)...) (tid...))  -> ((R STORE Rpure)...)   history through __call__ with caches; Rpure = bare interpreter on the pre-state
      (heap (STMT...))               -> (((name (n...))...)...) variable values after each statement
@@ -26,7 +26,8 @@ Fixpoint expr_of_sx (fuel : nat) (x : sx) : option expr :=
   | SL [SS t; a] =>
       if is_tag "l" t then option_map ELit (val_of_sx a) else
       if is_tag "v" t then match a with SZ n => Some (EVar n) | _ => None end else
-      if is_tag "z" t then option_map ESize (expr_of_sx f a) else None
+      if is_tag "z" t then option_map ESize (expr_of_sx f a) else
+      if is_tag "r" t then option_map ERed (expr_of_sx f a) else None
   | SL [SS t; SZ n; a] =>
       if is_tag "d" t then option_map (EDef n) (expr_of_sx f a) else None
   | SL [SS t; SZ o; a; b] =>
